@@ -363,7 +363,7 @@ pub fn run(o: &DriveOpts, out: &mut dyn Write, tid: usize) -> Value {
         return json!({"t": tid, "profile": o.profile, "n": o.n, "cap": o.cap, "seed": o.seed, "events": rec.events, "panicked": !ok, "rounds": round});
     }
 
-    if profile == "cycle" || profile == "cycletwin" {
+    if profile == "cycle" || profile == "cycletwin" || profile == "cyclescript" {
         // Deterministic life-cycles AT the limits (nothing here looks at the object: every call is inside the limits by
         // construction, and a steering driver would walk around exactly the states this profile is for):
         // a group grown to K members (mostly exactly 16) by one of three join patterns, while G background groups (mostly
@@ -371,8 +371,56 @@ pub fn run(o: &DriveOpts, out: &mut dyn Write, tid: usize) -> Value {
         // others, now and then on all 16, now and then overwritten); "cycletwin": clone() or save+load at that full state,
         // every later call mirrored on the copy; all data read (the last read collects the group); three of its ids
         // re-created, read, bound into a new group that takes a slot over, read and collected; the id window rotates.
+        // "cyclescript": the same life-cycles, but every add/bind/put goes through Script::deploy_to in chunks of 1 to 40
+        // commands (literal ids), after one script with 33 to 48 variables; data() calls are made directly.
         let twin_mode = profile == "cycletwin";
+        let script_mode = profile == "cyclescript";
+        let labels: Vec<String> = if script_mode {
+            labels.iter().filter(|a| !a.starts_with('~') && !a.contains(' ') && !a.contains('-') && !a.contains(',')).cloned().collect()
+        } else {
+            labels.clone()
+        };
+        let datas: Vec<String> = if script_mode { datas.iter().filter(|d| d.as_str() != "--").cloned().collect() } else { datas.clone() };
         let nl = o.n.max(1).min(labels.len());
+        let mut buf: Vec<Call> = vec![];
+        let mut flushes = 0usize;
+        let mut chunk = 1 + (o.seed as usize % 7);
+        macro_rules! flush {
+            () => {{
+                if !buf.is_empty() {
+                    let mut prog: Vec<Value> = vec![];
+                    let mut texts: Vec<String> = vec![];
+                    for (i, c) in buf.iter().enumerate() {
+                        let lit = |v: usize| if (i + flushes) % 2 == 0 { format!("ν{v}") } else { format!("{v}") };
+                        match c {
+                            Call::Add { v } => {
+                                prog.push(json!({"c": "ADD", "v": {"k": "lit", "id": v}}));
+                                texts.push(format!("ADD({})", lit(*v)));
+                            }
+                            Call::Bind { v1, v2, a } => {
+                                prog.push(json!({"c": "BIND", "v1": {"k": "lit", "id": v1}, "v2": {"k": "lit", "id": v2}, "a": a}));
+                                texts.push(format!("BIND({}, {},{a})", lit(*v1), lit(*v2)));
+                            }
+                            Call::Put { v, d } => {
+                                prog.push(json!({"c": "PUT", "v": {"k": "lit", "id": v}, "d": d}));
+                                texts.push(format!("PUT( {} , {} )", lit(*v), if i % 2 == 0 { d.to_lowercase() } else { d.clone() }));
+                            }
+                            _ => {}
+                        }
+                    }
+                    let sep = ["; ", ";\n", " ;\t# comment; with ) and $v9\n", ";\n  "][flushes % 4];
+                    let mut text = if flushes % 3 == 0 { "# header\n".to_string() } else { String::new() };
+                    for t in &texts {
+                        text.push_str(t);
+                        text.push_str(sep);
+                    }
+                    buf.clear();
+                    flushes += 1;
+                    chunk = 1 + (chunk * 5 + 3) % 40;
+                    ok = ok && rec.call(&mut w, HCall { h: 0, call: Call::Deploy { text, prog: json!(prog), fault_at: 0 } });
+                }
+            }};
+        }
         let span = o.cap.saturating_sub(26);
         if span < 20 {
             return json!({"t": tid, "profile": o.profile, "n": o.n, "cap": o.cap, "seed": o.seed, "events": rec.events, "panicked": false, "skipped": "capacity below 46"});
@@ -386,12 +434,52 @@ pub fn run(o: &DriveOpts, out: &mut dyn Write, tid: usize) -> Value {
         macro_rules! go {
             ($c:expr) => {{
                 let c: Call = $c;
-                ok = ok && rec.call(&mut w, HCall { h: 0, call: c.clone() });
-                if ok && twin_alive {
-                    rec.mirror_next = true;
-                    ok = rec.call(&mut w, HCall { h: 1, call: c });
+                if script_mode && matches!(c, Call::Add { .. } | Call::Bind { .. } | Call::Put { .. }) {
+                    buf.push(c);
+                    if buf.len() >= chunk {
+                        flush!();
+                    }
+                } else {
+                    flush!();
+                    ok = ok && rec.call(&mut w, HCall { h: 0, call: c.clone() });
+                    if ok && twin_alive {
+                        rec.mirror_next = true;
+                        ok = rec.call(&mut w, HCall { h: 1, call: c });
+                    }
                 }
             }};
+        }
+        if script_mode {
+            // one script with many variables: k vertices in groups of four (a chain each), a datum on the last of each group;
+            // on a fresh graph the variables get the ids 0..k-1 (the driver's own model), so the groups can be read away
+            let k = 33 + (o.seed as usize % 16);
+            let mut prog: Vec<Value> = vec![];
+            let mut texts: Vec<String> = vec![];
+            for i in 0..k {
+                prog.push(json!({"c": "ADD", "v": {"k": "var", "name": format!("v{i}")}}));
+                texts.push(format!("ADD($v{i})"));
+            }
+            for i in 0..k {
+                if i % 4 != 0 {
+                    let a = labels[i % nl].clone();
+                    prog.push(json!({"c": "BIND", "v1": {"k": "var", "name": format!("v{}", i - 1)}, "v2": {"k": "var", "name": format!("v{i}")}, "a": a}));
+                    texts.push(format!("BIND($v{}, $v{i}, {a})", i - 1));
+                }
+            }
+            let mut holders = vec![];
+            for i in 0..k {
+                if i % 4 == 3 || (i == k - 1 && i % 4 != 0) {
+                    let d = datas[i % datas.len()].clone();
+                    prog.push(json!({"c": "PUT", "v": {"k": "var", "name": format!("v{i}")}, "d": d}));
+                    texts.push(format!("PUT($v{i}, {d})"));
+                    holders.push(i);
+                }
+            }
+            let text = texts.join(";\n") + ";\n";
+            ok = ok && rec.call(&mut w, HCall { h: 0, call: Call::Deploy { text, prog: json!(prog), fault_at: 0 } });
+            for v in holders {
+                ok = ok && rec.call(&mut w, HCall { h: 0, call: Call::Data { v } });
+            }
         }
         while ok && rec.events < o.steps {
             let k = ks[round % 8];
@@ -429,6 +517,19 @@ pub fn run(o: &DriveOpts, out: &mut dyn Write, tid: usize) -> Value {
                 } else {
                     go!(Call::Bind { v1: m[i], v2: par, a: labels[(round + i) % nl].clone() });
                 }
+            }
+            if k >= 3 {
+                // an edge between two MEMBERS of the (possibly full) group: no group changes; the vertex that joined last
+                // re-uses its own label if it has one (so that N = 1 stays inside the limits)
+                let i = k - 1;
+                let down = match pat { 0 => true, 1 => false, _ => i % 2 == 0 };
+                let a = if down { labels[0].clone() } else { labels[(round + i) % nl].clone() };
+                go!(Call::Bind { v1: m[k - 1], v2: m[1], a });
+            }
+            if bg[0] {
+                // an edge from the first background pair into the group: paths that run through several groups (with N = 1 the
+                // group is a chain of 16, so this path is 18 vertices deep); it dangles once the group is collected
+                go!(Call::Bind { v1: o.cap - 1, v2: m[0], a: labels[0].clone() });
             }
             if !bg_first {
                 for (i, create) in adjust_bg(&bg) {
@@ -498,6 +599,7 @@ pub fn run(o: &DriveOpts, out: &mut dyn Write, tid: usize) -> Value {
             off = (off + 5) % span;
             round += 1;
         }
+        flush!();
         return json!({"t": tid, "profile": o.profile, "n": o.n, "cap": o.cap, "seed": o.seed, "events": rec.events, "panicked": !ok, "rounds": round});
     }
 
@@ -748,8 +850,11 @@ pub fn run(o: &DriveOpts, out: &mut dyn Write, tid: usize) -> Value {
             if win >= 60 && o.n >= 2 && rng.gen_bool(0.15) {
                 // trees that span several groups (sub-trees built on their own and linked afterwards: binding two grouped
                 // vertices changes no group), 17 to 22 vertices; g has the same shape but for one or two leaves
-                let total = rng.gen_range(17..=22usize);
-                let a = rng.gen_range((total - 11).max(6)..=11usize.min(total - 6));
+                // variant "full": ONE group of exactly 16 in both graphs (nothing can be added under it, nothing has to be),
+                // the right graph now and then with isolated extra vertices (which the merge must report)
+                let full = rng.gen_bool(0.4);
+                let total = if full { 16 } else { rng.gen_range(17..=22usize) };
+                let a = if full { total } else { rng.gen_range((total - 11).max(6)..=11usize.min(total - 6)) };
                 let nlab = o.n.min(labels.len());
                 // shape[i] = (parent index, label index); component A = 0..a, component B = a..total (B's root hangs below A)
                 let mut shape: Vec<(usize, usize)> = vec![(0, 0); total];
@@ -763,10 +868,11 @@ pub fn run(o: &DriveOpts, out: &mut dyn Write, tid: usize) -> Value {
                     usedl[par].push(l);
                     shape[i] = (par, l);
                 }
-                let mut drop_g: Vec<usize> = vec![total - 1];
-                if rng.gen_bool(0.5) {
+                let mut drop_g: Vec<usize> = if full { vec![] } else { vec![total - 1] };
+                if !full && rng.gen_bool(0.5) {
                     drop_g.push(a - 1);
                 }
+                let h_extras = if full { rng.gen_range(0..=2usize) } else { 0 };
                 let mut roots = (0usize, 0usize);
                 for h in [0usize, 1] {
                     ok = ok && rec.call(&mut w, HCall { h, call: Call::New { n: o.n, cap: o.cap } });
@@ -778,8 +884,13 @@ pub fn run(o: &DriveOpts, out: &mut dyn Write, tid: usize) -> Value {
                             ok = ok && rec.call(&mut w, HCall { h, call: Call::Add { v: ids[i] } });
                         }
                     }
+                    if h == 1 {
+                        for x in 0..h_extras {
+                            ok = ok && rec.call(&mut w, HCall { h, call: Call::Add { v: ids[total + x] } });
+                        }
+                    }
                     for i in (1..total).filter(|i| *i != a).chain(std::iter::once(a)) {
-                        if !skip(i) {
+                        if i < total && !skip(i) {
                             ok = ok && rec.call(&mut w, HCall { h, call: Call::Bind { v1: ids[shape[i].0], v2: ids[i], a: labels[shape[i].1].clone() } });
                         }
                     }
